@@ -1,7 +1,8 @@
 """C10 — queries return exactly what a brute-force scan of the model would.
 
 Monitor: on scratch copies of every corpus model (loaded state, and a state reached by a few random
-API edits) compare with independent raw-lxml scans:
+API edits, and states after `save()` in the same session — with and without a replacement of fragment roots)
+compare with independent raw-lxml scans:
   * `model.search` by class / full type string / short name / several / none, with and without `below=`;
   * `model.find_references(y)` for every object y against a reverse index built by evaluating every
     relation of every element without any pre-filter (tuple-level soundness; completeness for the
@@ -54,7 +55,9 @@ MANIFEST = dict(
           "every list into disjoint, complementary, order-preserving parts (interleaving reconstruction) — for the coded "
           "ismatch only when every element has the attribute (witness otherwise); single fails on 0 or several matches. "
           "Tied to /repo by exporting real model states (incl. the implementation's own type index) to the model and by an "
-          "independent brute-force monitor over all corpus models, also after random edits."),
+          "independent brute-force monitor over all corpus models, also after random edits and — in the same session — after "
+          "save() with and without a replacement of fragment roots (model of update_namespaces: the rebuilt index is exact, "
+          "search after save equals the scan; the rebuilt index is compared bucket by bucket)."),
     design_ref="§6 C10",
     note=("Trusted: Lean kernel; lxml document order; helpers.xtype_of/from_model to name element types in the oracle. "
           "Relation evaluation itself (follow_link etc.) is C05's subject and is used by both sides of the find_references comparison."),
@@ -285,6 +288,51 @@ def check_search(ctx: Ctx, out: Outcome, model, label: str, state: str, keep: li
         run_query([g], "all", allexp)
     for a in rng.sample(anchors, min(len(anchors), ctx.pick(6, 40))):
         run_query([], "all", with_below(allexp, a), below=a)
+    # the root element of every semantic fragment: found under its own type (string / class / short name), and as
+    # `below=` anchor — once as the object `by_uuid` hands out, once as the object the type search itself hands out
+    for f in model._loader.trees.values():
+        if f.fragment_type.name != "SEMANTIC":
+            continue
+        r = f.root
+        rxt = xt_of.get(id(r))
+        if rxt is None or "href" in r.attrib:
+            continue
+        out.hit("search:root-probe")
+        rexp = {id(e) for e in typed if xt_of[id(e)] == rxt}
+        run_query([rxt], "root", rexp)
+        if rxt in handlers and [k for k, c in handlers.items() if c is handlers[rxt]] == [rxt]:
+            run_query([handlers[rxt]], "root", rexp)
+        if r.get("id") and len(r):
+            sub = rng.sample(present, min(len(present), ctx.pick(2, 6)))
+            for xt in sub:
+                exp = {id(e) for e in typed if xt_of[id(e)] == xt}
+                run_query([xt], "root", with_below(exp, r), below=r)
+            run_query([], "root", with_below(allexp, r), below=r)
+            # anchors taken from the result of the search for the root's type
+            try:
+                found = list(model.search(rxt))
+            except Exception:  # noqa: BLE001  (reported by run_query above)
+                found = []
+            for x in found[:3]:
+                xe = getattr(x, "_element", None)
+                if xe is None:
+                    continue
+                keep.append(xe)
+                xt = rng.choice(present)
+                exp = with_below({id(e) for e in typed if xt_of[id(e)] == xt}, xe)
+                key = (label, state, "search", "root-found-anchor", xt, xe.get("id"))
+                out.case(key, None, True)
+                try:
+                    got = {id(e) for e in model.search(xt, below=x)._elements}
+                except Exception as e:  # noqa: BLE001
+                    out.find(f"search|root|below-found|raises-{type(e).__name__}", f"[{label}/{state}] search({xt!r}, below=<{rxt} found by search>) raised {type(e).__name__}",
+                             {"kind": "search", "model": label, "state": state, "args": [xt], "argkind": "root", "below": xe.get("id")})
+                    continue
+                if got != exp or xe.getparent() is None and xe is not r:
+                    out.find("search|root|below-found|" + ("anchor-not-in-tree" if (xe.getparent() is None and xe is not r) else "differs"),
+                             f"[{label}/{state}] search({xt!r}, below=<the {rxt} object returned by search>): {len(got)} objects, the scan below that element "
+                             f"finds {len(exp)}; the anchor returned by search is {'NOT ' if (xe.getparent() is None and xe is not r) else ''}the fragment root in the tree",
+                             {"kind": "search", "model": label, "state": state, "args": [xt], "argkind": "root", "below": xe.get("id")})
     # several at once
     for _ in range(ctx.pick(5, 30)):
         sel = rng.sample(present, min(len(present), rng.randint(2, 4)))
@@ -299,6 +347,40 @@ def check_search(ctx: Ctx, out: Outcome, model, label: str, state: str, keep: li
             exp |= {id(e) for e in desc}
         b = rng.choice(anchors) if anchors and rng.random() < 0.5 else None
         run_query(mixed, "multi", with_below(exp, b) if b is not None else exp, below=b)
+
+
+# ------------------------------------------------------------------ A'. lookup by id
+
+
+def check_by_uuid(ctx: Ctx, out: Outcome, model, label: str, state: str, keep: list) -> None:
+    """`by_uuid(u)` hands out the element of the trees that carries the id `u` (ids that occur once), and the roots of
+    all semantic fragments are among the probed elements."""
+    from capellambse.model import _obj
+
+    rng = ctx.rng
+    elems = [e for e in sem_elements(model) if e.get("id")]
+    keep.append(elems)
+    count = collections.Counter(e.get("id") for e in nonvisual_elements(model) if e.get("id"))
+    roots = [f.root for f in model._loader.trees.values() if f.fragment_type.name == "SEMANTIC" and f.root.get("id")]
+    rest = [e for e in elems if count[e.get("id")] == 1]
+    n = ctx.pick(150, 3000)
+    sample = roots + (rest if len(rest) <= n else rng.sample(rest, n))
+    for e in sample:
+        u = e.get("id")
+        if count[u] != 1:
+            continue
+        out.case((label, state, "by_uuid", u), None, True)
+        out.hit("by_uuid" + (":root" if e.getparent() is None else ""))
+        rep = {"kind": "by_uuid", "model": label, "state": state, "y": u}
+        try:
+            o = model.by_uuid(u)
+        except Exception as ex:  # noqa: BLE001
+            out.find(f"by_uuid|raises-{type(ex).__name__}", f"[{label}/{state}] by_uuid({u}) raised {type(ex).__name__} although the trees hold exactly one element with that id", rep)
+            continue
+        if isinstance(o, _obj.ModelElement) and o._element is not e:
+            out.find("by_uuid|other-element" + ("|root" if e.getparent() is None else ""),
+                     f"[{label}/{state}] by_uuid({u}) returns an element that is not the one the scan of the trees finds "
+                     f"(in a tree: {o._element.getparent() is not None or any(o._element is f.root for f in model._loader.trees.values())})", rep)
 
 
 # ------------------------------------------------------------------ B. references
@@ -615,6 +697,7 @@ def filterable_names(lst, rng, cap: int) -> list[str]:
     names = sorted(n for n in names if isinstance(getattr(lst, "by_" + n, None), _obj._ListFilter))
     if len(names) > cap:
         keepn = [n for n in ("name", "uuid", "kind", "xtype", "layer") if n in names]
+        keepn = keepn[:cap]
         names = keepn + rng.sample([n for n in names if n not in keepn], cap - len(keepn))
     return names
 
@@ -1080,6 +1163,137 @@ def random_edits(ctx: Ctx, out: Outcome, model) -> int:
     return total
 
 
+# ------------------------------------------------------------------ D'. save() inside the session
+
+
+_NSREL: dict = {}
+SAVED_STATES = ("saved", "saved-ns", "saved-drop")
+
+
+def fragment_root_of(elem):
+    cur = elem
+    while cur.getparent() is not None:
+        cur = cur.getparent()
+    return cur
+
+
+def namespace_candidates(model, objs: list) -> list:
+    """(object, relation, element type) for every list-valued containment relation whose element type lives in a
+    metamodel package (namespace prefix) that the root of the object's fragment does not declare — found by reflection
+    on the accessor table and the roots' namespace maps. Creating the first such element makes `save()` replace the
+    fragment's root element (`ModelFile.update_namespaces`)."""
+    from capellambse.model import _descriptors as D
+
+    declared: dict = {}
+    roots = {id(f.root): f for f in model._loader.trees.values()}
+    found = []
+    for o in objs:
+        r = fragment_root_of(o._element)
+        if id(r) not in roots:
+            continue
+        if id(r) not in declared:
+            declared[id(r)] = {k for k in r.nsmap if k}
+        cls = type(o)
+        if cls not in _NSREL:
+            rels = []
+            for n in dir(cls):
+                if n.startswith("_"):
+                    continue
+                acc = getattr(cls, n, None)
+                if type(acc) is D.DirectProxyAccessor and acc.aslist is not None and len(acc.xtypes) == 1 and not acc.rootelem \
+                        and not getattr(acc, "follow_abstract", False):
+                    xt = next(iter(acc.xtypes))
+                    if isinstance(xt, str) and ":" in xt:
+                        rels.append((n, xt))
+            _NSREL[cls] = rels
+        for n, xt in _NSREL[cls]:
+            if xt.split(":")[0] not in declared[id(r)]:
+                found.append((o, n, xt))
+    return found
+
+
+def namespace_edits(ctx: Ctx, out: Outcome, model) -> list:
+    """Create the first element(s) of a metamodel package the file does not declare yet (1-2 relations, chosen at
+    random among all candidates of the model). Returns [(owner, relation, new object)]."""
+    rng = ctx.rng
+    objs = [o for o in model.search() if type(o).__name__ != "Diagram" and getattr(o, "uuid", None)]
+    cands = namespace_candidates(model, objs)
+    out.extra.setdefault("namespace_edit_candidates", {})
+    made = []
+    if not cands:
+        return made
+    for k, (o, n, xt) in enumerate(rng.sample(cands, min(len(cands), rng.randint(1, 2)))):
+        try:
+            new = getattr(o, n).create(name=f"verif-ns-{k}")
+        except Exception:  # noqa: BLE001
+            out.hit("edit-refused:create-new-namespace")
+            continue
+        made.append((o, n, new))
+        out.hit("edit:create-new-namespace")
+        out.hit("edit:create-new-namespace:" + xt.split(":")[0])
+    return made
+
+
+def save_in_session(out: Outcome, model, keep: list) -> dict | None:
+    """`model.save()` (the model was loaded from a scratch copy). Returns, per semantic fragment, what was observed:
+    the namespace prefixes its root declared before the save and whether the save replaced the root element."""
+    ld = model._loader
+    before = {k: (f.root, sorted(p or "" for p in f.root.nsmap)) for k, f in ld.trees.items() if f.fragment_type.name == "SEMANTIC"}
+    keep.append(before)  # the replaced roots stay alive: their id() must not be handed to another element
+    try:
+        model.save()
+    except Exception as e:  # noqa: BLE001
+        out.hit(f"save-refused:{type(e).__name__}")
+        return None
+    info = {}
+    for k, f in ld.trees.items():
+        if k not in before:
+            continue
+        rep = f.root is not before[k][0]
+        out.hit("save:root-replaced" if rep else "save:root-kept")
+        info[str(k)] = {"declared": before[k][1], "replaced": rep}
+    return info
+
+
+def save_phases(ctx: Ctx, out: Outcome, model, label: str, fcases: list, reqs: list, lreqs: list, treqs: list, keep: list) -> dict:
+    """edit history -> save() -> queries in the same session, three times: (1) after the random edits (the root is
+    replaced only if they happened to change the set of metamodel packages in use), (2) after creating the first
+    element of a package the file does not declare (root replaced to add the namespace), (3) after deleting those
+    elements again (root replaced to drop it). Every state is judged like the loaded one."""
+    done = {}
+    sctx = StateCtx(ctx)
+    sv = save_in_session(out, model, keep)
+    if sv is not None:
+        done["saved"] = sum(1 for v in sv.values() if v["replaced"])
+        run_model_state(sctx, out, model, label, "saved", fcases, reqs, lreqs, treqs, saveinfo=sv)
+    made = namespace_edits(ctx, out, model)
+    if not made:
+        return done
+    sv = save_in_session(out, model, keep)
+    if sv is None:
+        # e.g. the viewpoint of the package is not activated in this model: take the elements out again
+        for o, n, new in made:
+            try:
+                getattr(o, n).remove(new)
+            except Exception:  # noqa: BLE001
+                pass
+        return done
+    done["saved-ns"] = sum(1 for v in sv.values() if v["replaced"])
+    run_model_state(sctx, out, model, label, "saved-ns", fcases, reqs, lreqs, treqs, saveinfo=sv)
+    if ctx.thorough or ctx.rng.random() < 0.34:
+        for o, n, new in made:
+            try:
+                getattr(o, n).remove(new)
+                out.hit("edit:delete-last-of-namespace")
+            except Exception:  # noqa: BLE001
+                out.hit("edit-refused:delete-last-of-namespace")
+        sv = save_in_session(out, model, keep)
+        if sv is not None:
+            done["saved-drop"] = sum(1 for v in sv.values() if v["replaced"])
+            run_model_state(sctx, out, model, label, "saved-drop", fcases, reqs, lreqs, treqs, saveinfo=sv)
+    return done
+
+
 # ------------------------------------------------------------------ exports for the Lean model
 
 
@@ -1125,6 +1339,34 @@ def export_search(model, keep: list) -> dict:
             # an indexed element that is in no tree any more (orphan) is exported as a node number that does not exist
             index.append([xt, [pos.get(id(e), ORPHAN) for e in d.values()]])
     return {"nodes": nodes, "index": index, "pos": pos}
+
+
+def saveindex_request(model, saveinfo: dict, keep: list) -> tuple[dict, list]:
+    """The state right after `save()` for the model of `update_namespaces`: typed nodes in document order, per semantic
+    fragment its node range, the namespace prefixes its root declared BEFORE the save, and — as the implementation's
+    answer — whether the root element was replaced and the fragment's own type index (orphans as ORPHAN)."""
+    from capellambse import helpers
+
+    nodes, frags, impl = [], [], []
+    pos: dict = {}
+    for k, f in model._loader.trees.items():
+        if f.fragment_type.name != "SEMANTIC":
+            continue
+        lo = len(nodes)
+        for e in f.root.iter():
+            if not isinstance(e.tag, str):
+                continue
+            pos[id(e)] = len(nodes)
+            keep.append(e)
+            nodes.append({"xt": helpers.xtype_of(e) or "", "sem": True})
+        sv = saveinfo.get(str(k))
+        if sv is None:
+            continue
+        cache = __import__("objlayer").private_state(f).xtypecache
+        frags.append({"lo": lo, "hi": len(nodes), "declared": sv["declared"]})
+        impl.append({"name": str(k).replace("\0", "~"), "replaced": sv["replaced"],
+                     "index": [[xt, [pos.get(id(e), ORPHAN) for e in d.values()]] for xt, d in cache.items() if d]})
+    return {"op": "saveindex", "nodes": nodes, "frags": frags}, impl
 
 
 def search_requests(ctx: Ctx, model, keep: list) -> tuple[list[dict], list]:
@@ -1269,14 +1511,39 @@ class ModelCtx:
         return self._ctx.scratch
 
 
+class StateCtx:
+    """View of a model's context for the additional post-save states: same PRNG stream, smaller samples (the thorough
+    tier uses the quick sizes there, the quick tier a third of them) so that three more states per model fit the budget.
+    What is enumerated completely (every type present, every class, every short name, the fragment roots) stays complete."""
+
+    def __init__(self, mctx):
+        self._m = mctx
+        self.rng = mctx.rng
+        self.tier, self.seed, self.prop = mctx.tier, mctx.seed, mctx.prop
+        self.thorough = False
+
+    def pick(self, quick: int, thorough: int) -> int:
+        return quick if self._m.thorough else max(1, quick // 3)
+
+    @property
+    def scratch(self):
+        return self._m.scratch
+
+
 TABLE_INFO: dict = {}
+KEEP_ALIVE: list = []  # exported elements (and roots replaced by a save) stay alive until the answers are compared
 
 
 def run_model_state(ctx: Ctx, out: Outcome, model, label: str, state: str, fcases: list, reqs: list,
-                    lreqs: list | None = None, treqs: list | None = None) -> None:
+                    lreqs: list | None = None, treqs: list | None = None, saveinfo: dict | None = None) -> None:
+    import time
+
+    t0 = time.time()
     keep: list = []  # keeps lxml proxies alive so that id() stays meaningful
+    out.hit("state:" + state)
     rep = {"model": label, "state": state}
     guarded(out, "search", dict(rep, kind="guard"), check_search, ctx, out, model, label, state, keep)
+    guarded(out, "by_uuid", dict(rep, kind="guard"), check_by_uuid, ctx, out, model, label, state, keep)
     guarded(out, "references", dict(rep, kind="guard"), check_references, ctx, out, model, label, state, keep)
     guarded(out, "children", dict(rep, kind="guard"), check_children, ctx, out, model, label, state)
     guarded(out, "filters", dict(rep, kind="guard"), check_filters, ctx, out, model, label, state, fcases)
@@ -1290,8 +1557,14 @@ def run_model_state(ctx: Ctx, out: Outcome, model, label: str, state: str, fcase
     if os.environ.get("VERIF_NO_MODEL") != "1":
         rq, impl = search_requests(ctx, model, keep)
         reqs.append(("search", label, state, rq[0], impl))
+        if saveinfo is not None:
+            rq, impl = saveindex_request(model, saveinfo, keep)
+            reqs.append(("saveindex", label, state, rq, impl))
         rq, impl, ys = findrefs_requests(ctx, model, keep)
         reqs.append(("findrefs", label, state, rq[0], (impl, ys)))
+    KEEP_ALIVE.append(keep)
+    sec = out.extra.setdefault("state_seconds", {})
+    sec[state] = round(sec.get(state, 0.0) + time.time() - t0, 1)
 
 
 def run(ctx: Ctx) -> Outcome:
@@ -1302,6 +1575,7 @@ def run(ctx: Ctx) -> Outcome:
     lreqs: list = []
     treqs: list = []
     TABLE_INFO.clear()
+    KEEP_ALIVE.clear()
     if os.environ.get("VERIF_NO_MODEL") != "1":
         # the generated tables as the driver reads them vs. the live classes (round trip of the translator)
         env = base.setup(ctx)
@@ -1327,6 +1601,7 @@ def run(ctx: Ctx) -> Outcome:
         per_model[label] = {"edits": n}
         if n:
             run_model_state(mctx, out, model, label, "edited", fcases, reqs, lreqs, treqs)
+        per_model[label]["roots_replaced_by_save"] = save_phases(mctx, out, model, label, fcases, reqs, lreqs, treqs, KEEP_ALIVE)
         del model
     # fragmented variants (Capella-style, written by the independent fragmenter): type search with `below`
     # across fragment boundaries, references between fragments
@@ -1361,6 +1636,19 @@ def run(ctx: Ctx) -> Outcome:
         for (kind, label, state, _rq, impl), a in zip(reqs, answers[len(fcases):]):
             if "ok" not in a:
                 out.disagree(kind, {"model": label, "state": state}, "n/a", a)
+                continue
+            if kind == "saveindex":
+                # model of ModelFile.update_namespaces: the root is replaced iff the prefixes in use differ from the
+                # declared ones, and then the fragment's type index is the one a walk of the new tree builds
+                for fr, iv, mv in zip(_rq["frags"], impl, a["ok"]["frags"]):
+                    out.hit("corr.saveindex:" + ("replaced" if iv["replaced"] else "kept"))
+                    rep = {"model": label, "state": state, "fragment": iv["name"]}
+                    if iv["replaced"] != mv["replace"]:
+                        out.disagree("save.root-replaced", rep, iv["replaced"], mv["replace"])
+                    if iv["replaced"] and iv["index"] != mv["rebuilt"]:
+                        bad = next(([x, y] for x, y in zip(iv["index"], mv["rebuilt"]) if x != y), [len(iv["index"]), len(mv["rebuilt"])])
+                        out.disagree("save.index-rebuilt", rep, str(bad[0])[:200], str(bad[1])[:200])
+                out.traces_validated += 1
                 continue
             if kind == "search":
                 if not a["ok"]["consistent"]:
@@ -1427,7 +1715,7 @@ def replay(ctx: Ctx, case: dict):
     base.setup(ctx)
     label = case.get("model")
     kind = case.get("kind")
-    if case.get("state") in ("edited", "fragmented") or kind in ("guard", "filter-guard", "listop"):
+    if case.get("state") in ("edited", "fragmented") + SAVED_STATES or kind in ("guard", "filter-guard", "listop"):
         # the edited state is a function of (seed, tier, model): re-run that model only
         ctx2 = Ctx(ctx.prop, case.get("tier", ctx.tier), int(case.get("seed", ctx.seed)))
         ctx2._scratch = ctx.scratch
@@ -1468,6 +1756,8 @@ def replay(ctx: Ctx, case: dict):
         return o.findings[0].what if o.findings else None
     elif kind == "children":
         check_children(Ctx(ctx.prop, "thorough", ctx.seed), o, model, label, "loaded")
+    elif kind == "by_uuid":
+        check_by_uuid(Ctx(ctx.prop, "thorough", ctx.seed), o, model, label, "loaded", keep)
     elif kind == "map":
         check_filters(ctx, o, model, label, "loaded", [])
     for f in o.findings:
